@@ -1,4 +1,5 @@
 import CoercionModel.Model.Builder
+import CoercionModel.Proofs.BuilderRef
 set_option linter.unusedSimpArgs false
 /-
   C20 — Builder yields the described plan or a sticky first error; never panics.
@@ -112,6 +113,69 @@ theorem new_wf (bl : Bool) (n d : String) (g : Option Nat) (s : B) (h : new bl n
     | some g => by_cases hg : g = 0 <;> simp [new, step, hg] at h; subst h; simp [WF]
   · simp [new, step] at h
 
+/-! ### (5) equivalence with direct construction
+
+  The reference (`Proofs/BuilderRef`): a stack of OPEN objects; a child is attached to its parent only
+  when it is closed — every object is complete before it is placed, as in a hand-written literal. The
+  Go builder links the child first and keeps mutating it through the chain; the two agree on every
+  accepted history, and the histories the reference has no meaning for are exactly the refused ones. -/
+
+/-- `New(name, descr)` starts both in the same place -/
+theorem new_is_reference_start (n d : String) : new false n d none = some (absB { plan := { name := n, descr := d } }) := by
+  simp [new, step, absB, finish, posOf]
+
+/-- any history of constructing calls the reference accepts, followed by `Plan()`: every call returns
+    nil error and `Plan()` returns exactly the hierarchy the reference built (nothing dropped, nothing
+    misplaced) -/
+theorem equals_direct_construction (z z' : Z) (cs : List Call) (hw : ZWF z) (h : zrun z cs = some z') :
+    (run (absB z) (cs ++ [.plan])).2 = cs.map (fun _ => Ret.ok) ++ [.planOut (finish z')] := by
+  rw [sim_run cs z z' hw h]
+
+/-- the first call the reference has no meaning for (wrong level, duplicate group, missing field, nil
+    argument, Up from the root) is reported as an error, and every later call other than Reset —
+    `Plan()` included — keeps returning that same error -/
+theorem first_misuse_sticks (z z' : Z) (good rest : List Call) (bad : Call) (hw : ZWF z)
+    (hg : zrun z good = some z') (hc : isCtor bad = true) (hb : zstep z' bad = none)
+    (hr : ∀ c ∈ rest, isReset c = false) :
+    ∃ e, (run (absB z) (good ++ bad :: rest)).2 = good.map (fun _ => Ret.ok) ++ Ret.err e :: rest.map (fun _ => Ret.err e) := by
+  have key : ∀ (good : List Call) (z : Z), ZWF z → zrun z good = some z' →
+      ∃ e, (run (absB z) (good ++ bad :: rest)).2 = good.map (fun _ => Ret.ok) ++ Ret.err e :: rest.map (fun _ => Ret.err e) := by
+    intro good
+    induction good with
+    | nil =>
+      intro z hw hg
+      simp [zrun] at hg
+      subst hg
+      obtain ⟨e, he⟩ := rejected_call_errors z bad hw hc hb
+      refine ⟨e, ?_⟩
+      simp only [List.nil_append, run, he, isPanic, List.map_nil]
+      have hs : ∀ (rest : List Call), (∀ c ∈ rest, isReset c = false) →
+          (run { absB z with err := some e } rest).2 = rest.map (fun _ => Ret.err e) := by
+        intro rest
+        induction rest with
+        | nil => intro _; simp [run]
+        | cons c cs ih =>
+          intro hr
+          have h1 := sticky { absB z with err := some e } e c rfl rfl (hr c (by simp))
+          simp only [run, h1, isPanic, List.map_cons]
+          rw [ih (fun c hc => hr c (by simp [hc]))]
+          simp
+      simp [hs rest hr]
+    | cons c cs ih =>
+      intro z hw hg
+      simp only [zrun] at hg
+      cases h1 : zstep z c with
+      | none => simp [h1] at hg
+      | some z1 =>
+        simp [h1] at hg
+        obtain ⟨hs, hw1⟩ := sim_step z z1 c hw h1
+        obtain ⟨e, he⟩ := ih z1 hw1 hg
+        refine ⟨e, ?_⟩
+        simp only [List.cons_append, run, hs, isPanic, List.map_cons]
+        rw [he]
+        simp
+  exact key good z hw hg
+
 /-- regression witnesses for the two repaired defects: these histories used to panic -/
 example : (run {} [.addAction none]).2.all (fun r => !isPanic r) = true := by decide
 example : (run {} [.reset true "" "d" none, .addBlock { name := "b", descr := "b" }, .plan]).2.all (fun r => !isPanic r) = true := by
@@ -129,5 +193,10 @@ example : ((run {} exCalls).1.plan.blocks.map (fun b => (b.name, b.seqs.map (fun
     b.post.map (fun c => c.actions.map (·.name))))) = [("b1", [("s1", ["a1"])], some ["c2"])] := by decide
 example : (run {} (exCalls ++ [.up, .addBlock { name := "b2", descr := "d" }, .err])).2.drop 10
     |>.all (fun r => match r with | .err .upFromRoot => true | _ => false) := by decide
+
+/-- non-vacuity: the example history is accepted by the reference, which builds the same two-level plan -/
+example : ((zrun {} exCalls).map (fun z => (finish z).blocks.map (fun b => (b.name, b.seqs.map (fun q => (q.name, q.actions.map (·.name))),
+    b.post.map (fun c => c.actions.map (·.name)))))).getD [] = [("b1", [("s1", ["a1"])], some ["c2"])] := by decide
+example : ((zrun {} exCalls).bind (zstep · .up)).isNone = true := by decide
 
 end Coercion.C20
